@@ -1,6 +1,8 @@
 """C06 -- energies equal the published NDDO model: closed-form layers against spec functions."""
 from fractions import Fraction
 
+import numpy as np
+
 from pyvc.api import *
 from pyvc import symtorch as st, expr as E, poly as P
 
@@ -333,6 +335,155 @@ def task_extra_pm6_tables(ctx):
 
 
 # tasks that look beyond the listed property (PM6); run with `./check C06 --task <name>`, never by the registered commands
+
+def replay_multipole_prologue(model):
+    """real two_elec_two_center_int (PM3 H-Cl: (g_pp - g_p2)/2 of Cl = 0.009 eV, below MOPAC's 0.1 eV floor) with `rotate`
+    replaced by a recorder: the quadrupole additive term handed on must be the root for h_pp = 0.1 eV (solved with the
+    repository's own additive_term_rho2), the monopole term ev / (2 g_ss)."""
+    import torch
+    import seqm.seqm_functions.two_elec_two_center_int as T2
+    from seqm.seqm_functions.constants import Constants
+    from seqm.basics import Pack_Parameters
+    from seqm.seqm_functions.cal_par import additive_term_rho2, dd_qq
+
+    torch.set_default_dtype(torch.float64)
+    const = Constants()
+    Z = torch.tensor([17, 1])
+    names = ["zeta_s", "zeta_p", "g_ss", "g_pp", "g_p2", "h_sp"]
+    par = Pack_Parameters({"method": "PM3", "elements": [0, 1, 17], "learned": []})(Z, learned_params={})[0]
+    got = {}
+    saved = T2.rotate
+
+    def rec(ni, nj, xij, rij, tore, da, db, qa, qb, dpa, dpb, dsa, dsb, dda, ddb, rho0a, rho0b, rho1a, rho1b, rho2a, rho2b, *rest, **kw):
+        got.update(rho0a=float(rho0a[0]), rho2a=float(rho2a[0]), qa=float(qa[0]))
+        raise StopIteration
+
+    T2.rotate = rec
+    try:
+        zero = torch.zeros(2)
+        T2.two_elec_two_center_int(const, torch.tensor([0]), torch.tensor([1]), torch.tensor([17]), torch.tensor([1]), torch.tensor([[1.0, 0.0, 0.0]]), torch.tensor([2.4]), Z,
+                                   par["zeta_s"], par["zeta_p"], zero, zero, zero, zero, par["g_ss"], par["g_pp"], par["g_p2"], par["h_sp"], zero, zero, zero, None, None, "PM3")
+    except StopIteration:
+        pass
+    finally:
+        T2.rotate = saved
+    hpp = 0.5 * (par["g_pp"] - par["g_p2"])
+    _, qq = dd_qq(const.qn[Z][:1], par["zeta_s"][:1], par["zeta_p"][:1])
+    want = float(additive_term_rho2.apply(torch.clamp(hpp[:1], min=0.1), qq)[0])
+    want0 = float(0.5 * T2.ev / par["g_ss"][0])
+    bad = abs(got["rho2a"] - want) > 1e-9 * max(1.0, abs(want)) or abs(got["rho0a"] - want0) > 1e-12
+    return {"reproduced": bool(bad), "element": "Cl (PM3)", "(g_pp-g_p2)/2": float(hpp[0]), "rho2_handed_to_the_integrals": got["rho2a"], "rho2_for_h_pp=max(0.1, (g_pp-g_p2)/2)": want, "rho0": got["rho0a"], "ev/(2 g_ss)": want0}
+
+
+def task_multipole_prologue(ctx):
+    """O2: the multipole parameters two_elec_two_center_int hands to the local-frame integrals are those of the published model:
+    rho0 = ev / (2 g_ss); rho1 = additive term for (h_sp, D1); rho2 = additive term for (h_pp, D2) with h_pp = (g_pp - g_p2)/2 and
+    MOPAC's 0.1 eV floor on it (the reference implementation the parameter sets were fitted with); D1, D2 the Dewar-Thiel charge
+    separations, which the real dd_qq must equal for principal quantum numbers 1..3: D1 = (2n+1)(4 zs zp)^(n+1/2) /
+    (sqrt(3) (zs+zp)^(2n+2)), D2 = sqrt((4n^2+6n+2)/20) / zp.  The secant solvers are uninterpreted functions of their arguments."""
+    from contracts.md_common import Obj
+    from contracts.es_common import tore_table
+
+    M2 = "seqm.seqm_functions.two_elec_two_center_int"
+    fe = ctx.under_contract(M2 + ":two_elec_two_center_int", stubs=["rotate", "additive_term_rho1/2", "dd_qq", "POIJ"])
+    cap = {}
+
+    def uf_tensor(name, *args):
+        n = len(args[0])
+        return st.tensor([Sym(E.uf(name, tuple(a.a[k].n for a in args), E.R)) for k in range(n)]) if n else st.zeros(0)
+
+    rho1 = Obj(apply=lambda hsp, dd: uf_tensor("rho1", hsp, dd))
+    rho2 = Obj(apply=lambda hpp, qq: uf_tensor("rho2", hpp, qq))
+
+    def ddqq(qn, zs, zp):
+        return uf_tensor("dd", qn, zs, zp), uf_tensor("qq", qn, zs, zp)
+
+    def rotate_stub(ni, nj, xij, rij, tore, da, db, qa, qb, dpa, dpb, dsa, dsb, dda, ddb, rho0a, rho0b, rho1a, rho1b, rho2a, rho2b, *rest, **kw):
+        cap["energy"] = dict(da=da, db=db, qa=qa, qb=qb, rho0a=rho0a, rho0b=rho0b, rho1a=rho1a, rho1b=rho1b, rho2a=rho2a, rho2b=rho2b)
+        n = len(ni)
+        return st.zeros(n, 10, 10), st.zeros(n, 4, 4), st.zeros(n, 4, 4), st.zeros(0, 4), st.zeros(n, 22)
+
+    Z = st.tensor([8, 6])
+    names = ["zetas", "zetap", "gss", "gpp", "gp2", "hsp"]
+    par = {n: st.symbolic((2,), n) for n in names}
+    const = Obj(tore=tore_table(), qn=st.tensor([0.0, 1, 1, 2, 2, 2, 2, 2, 2, 2]), qnD_int=st.zeros(10, dtype=st.int64))
+    idxi, idxj = st.tensor([0]), st.tensor([1])
+    ni, nj = st.tensor([8]), st.tensor([6])
+    xij, rij = st.symbolic((1, 3), "x"), st.symbolic((1,), "rij")
+    zeros = st.zeros(2)
+    ev = real("ev")
+    rep = []
+
+    def replay(m_):
+        if not rep:
+            try:
+                rep.append(replay_multipole_prologue({}))
+            except Exception as exc:  # noqa
+                rep.append({"reproduced": False, "error": repr(exc)[:300]})
+        return rep[0]
+
+    for method in ("MNDO", "AM1", "PM3"):
+        def thunk():
+            fe(const, idxi, idxj, ni, nj, xij, rij, Z, par["zetas"], par["zetap"], zeros, zeros, zeros, zeros, par["gss"], par["gpp"], par["gp2"], par["hsp"], zeros, zeros, zeros, None, None, method)
+            return dict(cap)
+
+        stubs = {M2 + ":rotate": rotate_stub, M2 + ":additive_term_rho1": rho1, M2 + ":additive_term_rho2": rho2, M2 + ":dd_qq": ddqq,
+                 M2 + ":POIJ": lambda l, d, fg: st.zeros(len(d)) if isinstance(d, st.T) else st.zeros(len(fg))}
+        ex = ctx.explore(thunk, stubs=stubs, constants={"ev": ev, "a0": real("a0")}, name="multipole prologue " + method)
+        if not [p for p in ex.paths if p.raised is None]:
+            ctx.error("multipole_prologue.%s.paths" % method, "no path returned")
+        for p in ex.paths:
+            if p.raised is not None:
+                ctx.fail("multipole_prologue.%s.raises@p%d" % (method, p.path_id), repr(p.raised) + p.notes.get("traceback", "")[-800:])
+                continue
+            c = p.value["energy"]
+            for k, side in enumerate("ab"):
+                qnk = E.const(Fraction(2), E.R)
+                dd = Sym(E.uf("dd", (qnk, par["zetas"].a[k].n, par["zetap"].a[k].n), E.R))
+                qq = Sym(E.uf("qq", (qnk, par["zetas"].a[k].n, par["zetap"].a[k].n), E.R))
+                hpp = (par["gpp"].a[k] - par["gp2"].a[k]) / 2
+                floor = S(Fraction(1, 10))
+                hpp_f = Sym(E.ite((hpp >= floor).n, hpp.n, floor.n))
+                tag = "multipole_prologue.%s.atom-%s@p%d" % (method, side, p.path_id)
+                ctx.prove_eq(tag + ".D1-is-dd_qq's-dipole-separation", c["d" + side].a[0], dd, pc=p.pc)
+                ctx.prove_eq(tag + ".D2-is-dd_qq's-quadrupole-separation", c["q" + side].a[0], qq, pc=p.pc)
+                ctx.prove_eq(tag + ".rho0=ev/(2 g_ss)", c["rho0" + side].a[0], ev / (2 * par["gss"].a[k]), pc=p.pc, replay=replay)
+                ctx.prove_eq(tag + ".rho1=additive-term(h_sp, D1)", c["rho1" + side].a[0], Sym(E.uf("rho1", (par["hsp"].a[k].n, dd.n), E.R)), pc=p.pc)
+                # the solver is an uninterpreted function: compare its arguments
+                got = c["rho2" + side].a[0].n
+                if got.op != "uf" or got.val != "rho2":
+                    ctx.fail(tag + ".rho2=additive-term(max(0.1, (g_pp-g_p2)/2), D2)", "rho2 handed on is not the result of additive_term_rho2: %s" % E.to_str(got, 200), replay=replay)
+                    continue
+                ctx.prove_eq(tag + ".rho2=additive-term(max(0.1, (g_pp-g_p2)/2), D2).h_pp", Sym(got.args[0]), hpp_f, pc=p.pc, replay=replay)
+                ctx.prove_eq(tag + ".rho2=additive-term(max(0.1, (g_pp-g_p2)/2), D2).D2", Sym(got.args[1]), qq, pc=p.pc)
+    # dd_qq itself against the published closed forms
+    import seqm.seqm_functions.cal_par as CPm
+
+    fd = ctx.under_contract("seqm.seqm_functions.cal_par:dd_qq")
+    for n in (1, 2, 3):
+        zs, zp = real("zs"), real("zp")
+
+        def thunk2():
+            assume(zs > 0)
+            assume(zp > 0)
+            return fd(st.tensor([float(n)]), st.T(np.array([zs], dtype=object), st.float64, True), st.T(np.array([zp], dtype=object), st.float64, True))
+
+        ex = ctx.explore(thunk2, name="dd_qq n=%d" % n)
+        for p in ex.paths:
+            if p.raised is not None:
+                if isinstance(p.raised, Unmodelled):
+                    raise p.raised
+                ctx.fail("dd_qq.n=%d.raises" % n, repr(p.raised))
+                continue
+            dd, qq = p.value
+            half = Fraction(2 * n + 1, 2)
+            spec_dd = Sym(E.mul(E.const(Fraction(2 * n + 1)), E.powr((4 * zs * zp).n, half), E.powr((zs + zp).n, -(2 * n + 2)), E.powr(E.const(Fraction(3)), Fraction(-1, 2))))
+            spec_qq = Sym(E.mul(E.powr(E.const(Fraction(4 * n * n + 6 * n + 2, 20)), Fraction(1, 2)), E.powr(zp.n, -1)))
+            ctx.prove_eq("dd_qq.n=%d.D1=(2n+1)(4 zs zp)^(n+1/2)/(sqrt3 (zs+zp)^(2n+2))" % n, dd.a[0], spec_dd, pc=list(p.pc) + [zs > 0, zp > 0])
+            ctx.prove_eq("dd_qq.n=%d.D2=sqrt((4n^2+6n+2)/20)/zp" % n, qq.a[0], spec_qq, pc=list(p.pc) + [zs > 0, zp > 0])
+    ctx.assume_note("multipole_prologue: pair O-C (both heavy, principal quantum number 2); d-orbital additive terms (PM6) not covered; secant solvers, dd_qq (in the prologue) and POIJ are uninterpreted functions")
+
+
 TASKS_EXTRA = ["core_core_pm6", "extra_pm6_tables"]
 
 
@@ -542,5 +693,5 @@ def task_fock_uhf(ctx):
     ctx.canary_eq("exchange-uses-same-spin", F.a[0, 0, 1, 2], F.a[0, 1, 1, 2])
 
 
-TASKS_QUICK = ["constant_tables", "overlap_aux_integrals", "local_frame", "core_core", "fock", "fock_uhf", "hcore_assembly"]
+TASKS_QUICK = ["constant_tables", "overlap_aux_integrals", "multipole_prologue", "local_frame", "core_core", "fock", "fock_uhf", "hcore_assembly"]
 TASKS_THOROUGH = TASKS_QUICK
